@@ -57,3 +57,9 @@ def extra_checks(ctx):
 def search_failing_input(ctx):
     found, _n, _k = run(ctx, 22, "quick")
     return found
+
+
+def replay(case):
+    """Re-run the numeric statement oracle on the input stored in a replay file."""
+    import random
+    return numeric.c13_oracle(case['N'], case['SR'], case['kind'], case['f_cut'], case['order'], random.Random(0))
